@@ -4,17 +4,23 @@ import json, os
 os.chdir("/verif")
 rows = sorted(l.split() for l in open("run/matrix.final") if l.strip())
 out = ["# Seeded changes: which check reports them (quick tier, VERIF_SEED=%s)" % os.environ.get("VERIF_SEED", "1"), "",
-       "Variants A-D: rounds 1 and 2; E, F: round 3; G, H: round 4; I, J: round 5 (connection-level properties only). Every change was",
+       "Variants A-D: rounds 1 and 2; E, F: round 3; G, H: round 4; I, J: round 5 (connection-level properties only); K, L: round 6 (eight properties). Every change was",
        "confirmed in a scratch worktree (suite passes with it, its demonstration fails with it and passes without it) and the owning",
        "check was run against it with `tools/trymutant.sh` (scratch worktree, `VERIF_REPO`); /repo itself is never touched.", "",
        "| change | property | check run | result |", "|---|---|---|---|"]
 for k, p, res in rows:
-    out.append("| %s | %s | ./check %s --tier quick | %s |" % (k, p, p, res))
+    own = k.split("-")[0]
+    out.append("| %s | %s | ./check %s --tier quick | %s%s |" % (k, own, p, res, "" if p == own else " (another property's check: the change lies in that property's code path)"))
     mp = "seeded/%s/meta.json" % k
     if os.path.exists(mp):
         m = json.load(open(mp)); m.setdefault("detected_by", {})[p] = res
         json.dump(m, open(mp, "w"), indent=1)
-n1 = sum(1 for r in rows if r[2] == "exit=1")
-out += ["", "%d changes, %d reported by the owning check (exit=1)." % (len(rows), n1)]
+keys = sorted({r[0] for r in rows})
+own_ok = {r[0] for r in rows if r[2] == "exit=1" and r[1] == r[0].split("-")[0]}
+any_ok = {r[0] for r in rows if r[2] == "exit=1"}
+out += ["", "%d changes, %d reported by the owning check (exit=1), %d by some check." % (len(keys), len(own_ok), len(any_ok))]
+missing = [k for k in keys if k not in own_ok]
+if missing:
+    out += ["", "Not reported by the owning check: " + ", ".join(missing) + " (see DESIGN.md 0.6)."]
 open("seeded/INDEX.md", "w").write("\n".join(out) + "\n")
 print(out[-1])
